@@ -265,6 +265,30 @@ class World:
 
     def ev_SetAllocs(self, k):
         masterapi.update_allocations(self.admin, self.scn['allocsets'][k - 1])
+        self.allocset = k
+
+    def declared(self):
+        """Partition each scheduled instance is assigned to by the allocations
+        document in force (independent re-statement of the assignment rule:
+        first matching pattern of the proid's assignments, else _default)."""
+        import fnmatch
+        doc = self.scn['allocsets'][getattr(self, 'allocset', 1) - 1]
+        out = {}
+        for a, inst in self.names.items():
+            label = '_default'
+            done = False
+            for obj in doc:
+                for asg in obj.get('assignments', []):
+                    pat = asg['pattern']
+                    key = pat[pat.find('@') + 1:pat.find('.')] if '@' in pat else pat[0:pat.find('.')]
+                    if key == inst[0:inst.find('.')] and fnmatch.fnmatchcase(inst, pat + '#*'):
+                        label = obj.get('partition') or '_default'
+                        done = True
+                        break
+                if done:
+                    break
+            out[a] = label
+        return out
 
     def ev_Blacklist(self, patterns):
         zkutils.put(self.admin, z.BLACKEDOUT_APPS, list(patterns))
@@ -453,6 +477,7 @@ def replay(scn, history):
                 line['post'] = post
                 line['spells'] = {k: v for k, v in w.spells.items()}
                 if ev == 'Cycle' and w.placement is not None:
+                    line['declared'] = w.declared()
                     line['queues'] = w.queues
                     line['placement'] = [[w.aname(n), b or '', rels(eb), a or '', rels(ea)]
                                          for n, b, eb, a, ea in w.placement]
@@ -489,6 +514,7 @@ def sched_segments(tid, lines):
         if is_cycle:
             line['queues'] = l['queues']
             line['placement'] = l['placement']
+            line['declared'] = l.get('declared', {})
         cur.append(line)
     if len(cur) > 1:
         segs.append(cur)
